@@ -143,11 +143,48 @@ Section Checker.
     order_ok && forallb (fun n => forallb (edge_ok (fst n)) (snd n)) stream && ancestry_ok.
 End Checker.
 
+(** ** the adapters of lib/src/graph.rs used by `jj log` on top of the stream: checked as
+    properties of their real output (no model of their mechanics) *)
+Definition stream_t := list (nat * list edge).
+(** graph.rs:133 TopoGroupedGraph: the same nodes with the same edges, re-ordered so that a
+    node still comes before every node one of its non-missing edges points to *)
+Definition node_eqb0 (a b : nat * list edge) : bool :=
+  (fst a =? fst b)%nat &&
+  list_eqb (fun e e' => (fst e =? fst e')%nat && ekind_eqb (snd e) (snd e')) (snd a) (snd b).
+Fixpoint order_respects_edges (seen : list nat) (l : stream_t) : bool :=
+  match l with
+  | [] => true
+  | (x, es) :: r =>
+    negb (memn x seen) &&
+    forallb (fun e => is_missing e || negb (memn (fst e) seen)) es &&
+    order_respects_edges (x :: seen) r
+  end.
+Definition topo_ok (stream topo : stream_t) : bool :=
+  (length topo =? length stream)%nat &&
+  forallb (fun nd => existsb (node_eqb0 nd) stream) topo &&
+  order_respects_edges [] topo.
+(** graph.rs:95 reverse_graph: nodes in reverse order, every edge between two nodes turned
+    around (edges leaving the node set have no reversed counterpart) *)
+Definition edge_triples (l : stream_t) : list (nat * nat * ekind) :=
+  flat_map (fun nd => map (fun e => (fst nd, fst e, snd e)) (snd nd)) l.
+Definition triple_eqb (a b : nat * nat * ekind) : bool :=
+  (fst (fst a) =? fst (fst b))%nat && (snd (fst a) =? snd (fst b))%nat && ekind_eqb (snd a) (snd b).
+Definition reverse_ok (stream rv : stream_t) : bool :=
+  let nodes := map fst stream in
+  let fwd := filter (fun tr => memn (snd (fst tr)) nodes) (edge_triples stream) in
+  let bwd := map (fun tr => (snd (fst tr), fst (fst tr), snd tr)) (edge_triples rv) in
+  list_eqb Nat.eqb (map fst rv) (rev nodes) &&
+  (length fwd =? length bwd)%nat &&
+  forallb (fun tr => existsb (triple_eqb tr) bwd) fwd &&
+  forallb (fun tr => existsb (triple_eqb tr) fwd) bwd.
+
 (** ** correspondence case *)
 Record walk := mk_walk {
   w_shown : list nat;                     (* positions of the input set *)
   w_skip : bool;                          (* skip_transitive_edges *)
   w_stream : list (nat * list edge);      (* impl: (node, [(target, type)]) in emission order *)
+  w_topo : option stream_t;               (* impl: TopoGroupedGraph over that stream *)
+  w_rev : option stream_t;                (* impl: reverse_graph of that stream *)
 }.
 Record case := mk_case {
   c_graph : graph;
@@ -162,7 +199,10 @@ Definition node_eqb (a b : nat * list edge) : bool :=
 Definition okb (c : case) : bool :=
   let g := c_graph c in let t := ancsets g in
   negb (c_panicked c) && wfb g &&
-  forallb (fun w => stream_ok g t (w_shown w) (w_stream w)) (c_walks c).
+  forallb (fun w => stream_ok g t (w_shown w) (w_stream w) &&
+                    match w_topo w with Some tp => topo_ok (w_stream w) tp | None => true end &&
+                    match w_rev w with Some rv => reverse_ok (w_stream w) rv | None => true end)
+          (c_walks c).
 
 Definition check_case (c : case) : N :=
   let g := c_graph c in let t := ancsets g in
